@@ -25,6 +25,8 @@ ASSUMPTIONS = [
     "glob oracle covers only the four documented forms with globset's default semantics (`*` crosses `/`)",
     "git ls-files -co --exclude-standard decides 'not git-ignored'; only simple .gitignore patterns are generated",
     "diffs are produced by real git from a committed base state",
+    "sub-directories with a `.git` directory or file of their own (nested checkout markers, written after git produced the diff) are placed "
+    "only over sub-trees without git-ignored files: whether outer ignore rules reach into a nested checkout is not decided by the statement",
 ]
 
 EXTS = ["py", "rs", "js", "md", "go", "sh"]
